@@ -38,11 +38,22 @@ IsPrefixSeq(a, b) == Len(a) <= Len(b) /\ SubSeq(b, 1, Len(a)) = a
    successor state is a plain value: TLC then evaluates them in expression mode, where LET
    definitions are evaluated once.  (Evaluated as part of an action, a quantifier or a LET is
    re-evaluated for every use -- a factor of 100 on these operators.) *)
+\* repr() read in its other ways (len / size_hint of the iterator, walked from the back, Display of the
+\* code words) shows the same 257 code words (detail: no clause of C07 names them)
+Views(e) == Detail(/\ e.views.len = NSYM /\ e.views.hint_lo = NSYM /\ e.views.hint_hi = NSYM
+                   /\ e.views.back = e.repr /\ e.views.disp = e.repr,
+                   "repr(): len / size_hint / reverse iteration / Display disagree with the code words")
 TableBuiltin(e) == /\ e.kind = "builtin" /\ e.res = "ok"
                    /\ e.repr = Code                        \* the built-in table is the documented one
+                   /\ Views(e)
 \* a table built from arbitrary frequencies must be a complete prefix code of at most 24 bits
+\* ... (detail) it is exactly the code the construction of Huffman!Build predicts, tie-breaking included; a
+\* different complete prefix code only drifts here -- but then differs from the reference on the comp events
 TableFreq(e) == /\ e.kind = "freq" /\ e.res = "ok"
                 /\ ValidCode(e.repr)
+                /\ WellFormedFreqs(e.fhi, e.flo)
+                /\ Detail(e.repr = Build(e.fhi, e.flo).code, "from_frequencies built another code than the specification's construction predicts")
+                /\ Views(e)
 TablePanic_F2(e) == /\ e.kind = "freq" /\ e.res = "panic"
                     /\ WellFormedFreqs(e.fhi, e.flo)
                     /\ LET h == TreeHeight(e.fhi, e.flo) IN
